@@ -7,15 +7,17 @@ out = []
 for rnd in (2, 3, 4, 5):
     ms = [m for m in metas if m.get("round") == rnd]
     missed = [m for m in ms if m.get("first_result") == "missed"]
-    out.append(f"**Round {rnd}** — {len(ms)} changes, {len(ms) - len(missed)} caught by the checks as they stood, {len(missed)} missed at first; "
-               f"all {len([m for m in ms if m.get('caught_by')])} are caught now.\n")
+    outside = [m for m in ms if m.get("first_result") == "not caught"]
+    out.append(f"**Round {rnd}** — {len(ms)} changes, {len(ms) - len(missed) - len(outside)} caught by the checks as they stood, {len(missed)} missed at first"
+               + (f", {len(outside)} judged not to violate the property as worded and left uncaught ({', '.join(m['id'] for m in outside)})" if outside else "")
+               + f"; {len([m for m in ms if m.get('caught_by')])} are caught now.\n")
     out.append("| change | what it needs to manifest | quick checks that fire now | first result → strengthening |")
     out.append("|---|---|---|---|")
     for m in ms:
         fr = m.get("first_result", "caught")
         st = m.get("strengthening", "")
         out.append(f"| {m['id']} {m.get('change_in_one_line', '')} | {m.get('trigger', '')} | {', '.join(m.get('caught_by') or []) or '**missed**'} | "
-                   f"{'missed → ' + st if fr == 'missed' else 'caught'} |")
+                   f"{'missed → ' + st if fr == 'missed' else ('not caught — ' + m.get('assessment', '') if fr == 'not caught' else 'caught')} |")
     out.append("")
 text = "\n".join(out)
 p = os.path.join(HERE, "DESIGN.md")
